@@ -134,6 +134,7 @@ fn sweep_years(y0: i64, y1: i64, acc: &mut Acc) {
                 (c.y, c.m, c.d, c.ord, c.wd, c.iso_y, c.iso_w, c.z + CE_OFFSET, c.m - 1, c.d - 1, c.ord - 1, if c.y >= 1 { (true, c.y as u32) } else { (false, (1 - c.y) as u32) }),
                 format!("Datelike accessors of NaiveDateTime {:?}", ndt)
             );
+            check_eq!(acc, "Datelike::num_days_from_ce (trait-qualified)", (<NaiveDate as Datelike>::num_days_from_ce(&d) as i64, <NaiveDateTime as Datelike>::num_days_from_ce(&ndt) as i64, ndt.and_utc().num_days_from_ce() as i64), (c.z + CE_OFFSET, c.z + CE_OFFSET, c.z + CE_OFFSET), format!("<NaiveDate as Datelike>::num_days_from_ce / NaiveDateTime / DateTime<Utc> at {:?}", d));
             check_eq!(acc, "Datelike::num_days_in_month / quarter", (d.num_days_in_month() as u32, ndt.num_days_in_month() as u32, d.quarter(), ndt.quarter()), (days_in_month(c.y, c.m), days_in_month(c.y, c.m), (c.m - 1) / 3 + 1, (c.m - 1) / 3 + 1), format!("num_days_in_month() / quarter() of {:?} as NaiveDate and NaiveDateTime", d));
             check_eq!(acc, "NaiveDate<->NaiveDateTime", (NaiveDate::from(ndt), NaiveDateTime::from(d).date(), NaiveDateTime::from(d).time(), ndt.date()), (d, d, NaiveTime::MIN, d), format!("From conversions between NaiveDate and NaiveDateTime at {:?}", ndt));
         }
